@@ -393,4 +393,19 @@ theorem respUnwrap_ok_iff (C : Cipher) (apdu : Bytes) (st : SmSt) :
         refine ⟨fun _ => ⟨h3', hiff.mp hm⟩, fun _ => ?_⟩
         rw [h2]
 
+/-! ### non-vacuity of the hypotheses -/
+
+/-- belt itself satisfies `CipherOK` (C01 `length_blockEncr`), and so does the identity cipher used in the examples -/
+example : CipherOK Bee2V.C01.beltCipher := fun k x h => Bee2V.C01.length_blockEncr k x h
+example : CipherOK ⟨fun _ x => x, fun _ x => x⟩ := fun _ _ h => h
+/-- a complete exchange evaluated on the model: wrap at counter 1, unwrap at counter 1 gives the command back, unwrap at
+counter 2 is refused with ERR_BAD_LOGIC, one altered octet is refused with ERR_BAD_MAC -/
+example :
+    (smCmdUnwrap ⟨fun _ x => x, fun _ x => x⟩ (smCmdWrap ⟨fun _ x => x, fun _ x => x⟩ ⟨0, 0xA4, 4, 12, [1, 2, 3], 256⟩ ⟨[], [], 1 :: List.replicate 15 0⟩).2 ⟨[], [], 1 :: List.replicate 15 0⟩).1 = .ok ∧
+    (smCmdUnwrap ⟨fun _ x => x, fun _ x => x⟩ (smCmdWrap ⟨fun _ x => x, fun _ x => x⟩ ⟨0, 0xA4, 4, 12, [1, 2, 3], 256⟩ ⟨[], [], 1 :: List.replicate 15 0⟩).2 ⟨[], [], 1 :: List.replicate 15 0⟩).2.map
+      (fun c => (c.cdf, c.rdf_len, c.cla.toNat)) = some ([1, 2, 3], 256, 0) ∧
+    (smCmdUnwrap ⟨fun _ x => x, fun _ x => x⟩ (smCmdWrap ⟨fun _ x => x, fun _ x => x⟩ ⟨0, 0xA4, 4, 12, [1, 2, 3], 256⟩ ⟨[], [], 1 :: List.replicate 15 0⟩).2 ⟨[], [], 2 :: List.replicate 15 0⟩).1 = .badLogic ∧
+    (smCmdUnwrap ⟨fun _ x => x, fun _ x => x⟩ ((smCmdWrap ⟨fun _ x => x, fun _ x => x⟩ ⟨0, 0xA4, 4, 12, [1, 2, 3], 256⟩ ⟨[], [], 1 :: List.replicate 15 0⟩).2.set 8 0x55) ⟨[], [], 1 :: List.replicate 15 0⟩).1 = .badMac := by
+  decide +kernel
+
 end Bee2V.C17
